@@ -47,7 +47,8 @@ CHECKS["C01"] = dict(
          "max_diff |V - V*| < eps and 0 <= V* - V_pi < 2 eps; for policy iteration stopping on n_changed = 0 the returned policy is greedy for the "
          "returned values and, IF the last evaluation met its test (explicit hypothesis; the code does not check it - known finding), the gap is "
          "< eps/gamma (span), < 2eps/gamma and |V - V_pi| < eps/gamma (max_diff). All derived from monotone+shift of the executable backup. "
-         "The semi-async 2*gamma*eps/(1-gamma) bound is checked on the implementation here; its theorem (Gauss-Seidel contraction) is part of C06. "
+         "Semi-asynchronous max_diff: for every partition, permutation and collision resolution, a sweep that changes no value by eps(1-gamma)/gamma or "
+         "more is within eps of V* and its greedy policy within 2*gamma*eps/(1-gamma) (from the Gauss-Seidel contraction proved in C06). "
          "Tie: real VI/PI/semi-async run to reported convergence; exact V*, V_pi certificates proposed in Python and verified by the Lean driver "
          "with the model's operators; bounds checked as exact rational inequalities.",
     technique="Lean 4 proof of the a-priori error bounds from the stopping rule (monotone+shift operator theory over the executable backup) + certificate-checked runs of the real solvers",
@@ -86,12 +87,12 @@ CHECKS["C06"] = dict(
          "sweep equals the padding-free block Gauss-Seidel recursion over the same batches (prepared layouts are proved PadTail: a batch with "
          "padding is followed only by all-padding batches, so padding can never undo an update that is used); one batch per device => the "
          "synchronous sweep; every fixed point of the Bellman operator is a fixed point of every semi-async sweep and is returned in natural "
-         "order, for every permutation; the k-th permutation is a function of (seed key, k) only under an abstract PRNG. Partial: the converse "
-         "fixed-point direction and the Gauss-Seidel contraction (hence the C01 semi-async bound) are checked on the implementation only. "
+         "order, and conversely a vector left unchanged by any semi-async sweep is a Bellman fixed point (iff); Gauss-Seidel contraction "
+         "towards the fixed point for every schedule; the k-th permutation is a function of (seed key, k) only under an abstract PRNG. "
          "Tie: hook-recorded permutations replayed by the model, both collision resolutions, independent python block-GS oracle, permutation "
          "recomputed from the key with one split, same-seed twins.",
     technique="Lean 4 proof that the scan-with-scatter model equals padding-free block Gauss-Seidel for all schedules + replay of hook-recorded permutations",
-    ref="§8 C06", note="JAX PRNG abstract; converse fixed point / contraction not yet theorems (partial).")
+    ref="§8 C06", note="JAX PRNG abstract (only 'one split per sweep, nothing else reads the key' is model logic; the recorded permutation is recomputed from the key on every run).")
 CHECKS["C19"] = dict(
     text="Theorems for every dimension count and all integer bounds: the listed rows are exactly the integer vectors of the box (membership iff "
          "in the box), no duplicates, length = product of the dimensions, and the index function maps every listed row to its own row number "
